@@ -160,9 +160,10 @@ func trustedResourceURLFormat(format string, args map[string]string) (TrustedRes
 		// each other or with adjacent '.' runes in the format string.
 		err = fmt.Errorf(`arguments must not introduce ".." into the format string %q`, format)
 	}
-	if err == nil && strings.HasPrefix(format, "/") && !strings.HasPrefix(format, "//") && strings.HasPrefix(ret, "//") {
+	if err == nil && strings.HasPrefix(format, "/") && !strings.HasPrefix(format, "//") && (strings.HasPrefix(ret, "//") || strings.HasPrefix(ret, `/\`)) {
 		// An empty argument directly after the leading '/' would turn the
 		// path-absolute URL into a scheme-relative one, i.e. change the host.
+		// Browsers treat '\\' like '/' there.
 		err = fmt.Errorf(`arguments must not turn the path-absolute format string %q into the scheme-relative URL %q`, format, ret)
 	}
 	return TrustedResourceURL{ret}, err
